@@ -364,6 +364,13 @@ PollFailures(bs, p, isGet) ==
                       \/ (firstTerminal /\ p.res = "end" /\
                             \E i \in DOMAIN p.nexts :
                                p.nexts[i].k = "fail" \/ (p.nexts[i].k = "yield" /\ p.nexts[i].n > 0))
+                      \* a stream that has nothing more to give although its range is not complete (a short
+                      \* stream, whether or not the body polled it to its end)
+                      \/ (firstTerminal /\ p.res = "end" /\
+                            \E i \in DOMAIN p.nexts :
+                               /\ p.nexts[i].k \in {"end", "done"}
+                               /\ p.nexts[i].call \in DOMAIN calls2
+                               /\ Lt(calls2[p.nexts[i].call].y, Owed(calls2[p.nexts[i].call])))
      \* --- C12: hints exact and truthful, end-of-stream flag truthful
      \/ id = "C12" /\ \/ ~exact
                       \/ (bs.eosSaid /\ ContractOK(calls2) /\ p.res = "data" /\ p.n > 0)
